@@ -439,7 +439,7 @@ func main() {
 	want := map[string]bool{}
 	for _, n := range []string{"tr.Write", "metrics.incDataMsgSend", "metrics.incDataMsgRecv", "metrics.incDataMsgInflight",
 		"metrics.decDataMsgInflight", "metrics.incConnRetry", "metrics.decConnRetry", "replies.register", "replies.deregister",
-		"replies.deliver", "metrics.incDataMsgErr", "wire.FromItem", "wire.AdoptBody", "nextBackoffDelay"} {
+		"replies.deliver", "metrics.incDataMsgErr", "wire.FromItem", "wire.AdoptBody", "nextBackoffDelay", "c.writeFrame"} {
 		want[n] = true
 	}
 	ft.WriteString("/-- (package, file, enclosing function, callee) for the tracked chokepoint calls. -/\n")
